@@ -38,6 +38,7 @@ type Solver struct {
 	log       io.Writer
 	dead      bool
 	depth     int
+	resetMode bool
 	scopeDefs []int
 	scopeDecl []string
 }
@@ -219,10 +220,19 @@ func (s *Solver) check(ts []*Term, keep bool) string {
 			return "unsat"
 		}
 	}
+	start := time.Now()
+	if s.resetMode {
+		s.send("(reset)")
+		s.send(fmt.Sprintf("(set-option :timeout %d)", s.timeoutMs))
+		s.send("(set-option :model.completion true)")
+		s.defined = map[int]bool{}
+		s.declared = map[string]bool{}
+		s.scopeDefs, s.scopeDecl = nil, nil
+		s.depth = 0
+	}
 	for _, t := range ts {
 		s.define(t)
 	}
-	start := time.Now()
 	s.send("(push 1)")
 	s.depth++
 	for _, t := range ts {
